@@ -215,9 +215,9 @@ def sampled_cases(rng, tier):
         (4, 30011, 10, 7, 0), (4, 65536, 10, 0, 0), (0, 65536, 0, 1, 0), (4, 10010, 10, 55000, 0),
         (4, 12345, 10, 0, 0), (4, 65530, 10, 5, 0),
     ]
+    cs += [(1, 100000, 10, 7, big)]        # DICT encoding above 2^20 bytes (F20): 1110010 bytes
     if tier != "quick":
-        cs += [(1, 100000, 10, 7, big),    # DICT encoding above 2^20 bytes (F20)
-               (1, 1200000, 10, 7, big),   # more than 2^20 distinct values: DICT refuses, TAGGED fallback
+        cs += [(1, 1200000, 10, 7, big),   # more than 2^20 distinct values: DICT refuses, TAGGED fallback
                (3, 1100000, 200, 1, 0),    # 1.1 M values below 200: DICT 1.1 MB
                (2, 150000, U64, 0, 0),     # random 64-bit: TAGGED 1.3 MB
                (0, 200000, 1 << 62, (1 << 40) + 1, 0),
